@@ -216,6 +216,9 @@ type Violation struct {
 	Features map[string]string `json:"features"`
 	Detail   string            `json:"detail"`
 	ImgPath  string            `json:"img_path,omitempty"` // "" main timeline, "2" image 2, "2/0" nested
+	// Chain: site descriptions of the crash images this world descends from
+	// (outermost first, the violation's own image excluded)
+	Chain []map[string]string `json:"chain,omitempty"`
 	StmtIdx  int               `json:"stmt_idx"`
 }
 
